@@ -127,7 +127,7 @@ func TestVerif_C03(t *testing.T) {
 		c.Rule(fmt.Sprintf("blocks: (A) every sequence of 1..3 fragments of the %d-element fragment alphabet (thorough: the %d-element wide alphabet, plus every 4-sequence over the first 12 fragments), each also with its last fragment cut at every byte (truncated blocks); (C) the real Encoder's output for every 2-operation history over 17 operations, each also with every one of its first 24 bytes xor 01 / xor 80 / set to ff and every truncation to < 24 bytes; (B) every byte string of length 1..%d over {00,01,0f,3f,40,7f,80,82,be,ff}. "+
 			"partitions of each block: every 2-partition including an empty chunk, every 3-partition into non-empty chunks for blocks of <= %d bytes, and one byte per Write; under each of %d decoder configurations (initial/allowed table size, 0-2 preloaded entries, max string length). Each partition is compared with the single-Write run. non-trivial = block whose single-Write run emitted a field or changed the table or was retained in saveBuf by some partition", len(c02Fragments(false)), len(c02Fragments(true)), byteL, max3, len(cfgs)))
 		c.Assume("after the first error of a block the decoder is not used again (callers must tear the connection down); the success/failure of a block is compared, not which error value is returned")
-		c.Assume("purely differential: a defect that misbehaves identically for every partition (e.g. the C01 finding about a second table-size update) is invisible here by construction")
+		c.Assume("purely differential: a defect that misbehaves identically for every partition is invisible here by construction")
 
 		var runs atomic.Int64
 		defer func() { c.Note("decoder_runs", runs.Load()) }()
